@@ -10,4 +10,10 @@ theorem all_writes_sync : ∀ w ∈ leveldbWrites, w.2 = true := by decide
 /-- …and there is at least one write site per persister (the fact list is not vacuous) -/
 theorem write_sites_present : 2 ≤ leveldbWrites.length := by decide
 
+/-- both flush paths hand goleveldb the batch's own record list (`batch.batch`: every Put/Delete of the batch in the order they
+    were issued, each value copied by goleveldb at `Put` time) — what the model's `flush` writes; not something rebuilt from
+    the lookup maps at flush time -/
+theorem writes_pass_the_record_list :
+    leveldbWriteArgs = ["DB.putBatch: dbBatch.batch", "putBatchAct.doPutRequest: p.batch.batch"] := by decide
+
 end SV.Facts
